@@ -162,6 +162,7 @@ func checkC11(r *evid.Run) {
 		}
 	}
 	cfgs = append(cfgs, "MC_Pipe_live_text.cfg") // liveness under weak fairness: Termination, NoLeak
+	cfgs = append(cfgs, "MC_Pipe_backpressure_text.cfg", "MC_Pipe_backpressure_walk.cfg") // one worker per stage, four blocks: every stage full, the last block pending
 	if !thorough {
 		cfgs = append(cfgs, "MC_Pipe_cancel_enc.cfg", "MC_Pipe_reader_enc.cfg")
 	} else {
